@@ -250,6 +250,16 @@ var mutators = []mutator{
 		}
 		return out
 	}},
+	{"case-flip", func(r *rand.Rand, t []string) []string {
+		i := pick(r, t, func(s string) bool { return s != "" && (s[0] >= 'a' && s[0] <= 'z' || s[0] >= 'A' && s[0] <= 'Z') })
+		if i < 0 {
+			return t
+		}
+		if strings.ToUpper(t[i]) != t[i] {
+			return splice(t, i, 1, strings.ToUpper(t[i]))
+		}
+		return splice(t, i, 1, strings.ToLower(t[i]))
+	}},
 	{"delete-span", func(r *rand.Rand, t []string) []string {
 		i := r.Intn(len(t))
 		n := 1 + r.Intn(8)
@@ -611,6 +621,12 @@ func main() {
 			}
 		}
 
+		if in.kind == "corpus" && o.noprog == nil && !o.timeout && o.panicked == nil {
+			// the exported entry point itself: same verdict as the body the harness runs
+			if _, err2 := parser.ParseString(in.data); (err2 == nil) != (o.err == nil) {
+				vhlib.Fatal("parser.ParseString and TemplateFileParser.Parse disagree on %s: %v vs %v", in.origin, err2, o.err)
+			}
+		}
 		switch {
 		case o.noprog != nil:
 			mu.Lock()
